@@ -204,18 +204,29 @@ def oracle_factory(cfg):
                                   f', {tot} submitted'))
                         continue
                     # split the submitted sequence into the fused buffers
-                    it = iter(items)
+                    # (a buffer of 0 elements carries the zero-element tensors
+                    # submitted at that point; zero-element tensors met while
+                    # filling a non-empty buffer were fused into it)
+                    pend = list(items)
                     for e in sent.get(ranks, []):
                         left, nb, cnt = e['numel'], 0, 0
+                        if left == 0:
+                            while pend and pend[0][0] == 0:
+                                pend.pop(0)
+                                cnt += 1
+                            if cnt == 0:
+                                left = -1
                         while left > 0:
-                            try:
-                                ne, es = next(it)
-                            except StopIteration:
+                            if not pend:
                                 left = -1
                                 break
+                            ne, es = pend.pop(0)
                             left -= ne
                             nb += ne * es
-                            cnt += 1
+                            # where a zero-element tensor travelled cannot
+                            # be read off the trace; it adds no bytes, so
+                            # only non-empty tensors count as sharing
+                            cnt += 1 if ne else 0
                         if left != 0:
                             v.append(('once', f'rank{rank}: fused buffer of '
                                       f'{e["numel"]} elements is not a run '
@@ -255,6 +266,10 @@ def alphabet(topo, rich):
             flags.append((True, True))
         for avg, sym in flags:
             ops.append((shape, dt, role, avg, sym))
+    if topo == 'w2':
+        # a zero-element tensor (0 bytes, yet it occupies the bucket and
+        # fixes its dtype)
+        ops.append(((0,), F32, 'W', False, False))
     return ops + ['flush']
 
 
